@@ -126,6 +126,19 @@ func (env *Env) call(e *spec.Call) Value {
 		argc(3)
 		ev := env.nthEvent(e.Args[0], e.Args[1])
 		return env.eventArg(ev, e.Args[2])
+	case "nevents":
+		// number of observable events on this path: calls that are neither pure nor silent nor inlined, go statements
+		n := 0
+		for _, ev := range env.st.trace {
+			if !ev.Quiet {
+				n++
+			}
+		}
+		t := smt.BVLit(uint64(n), 64)
+		if len(env.st.callBase) > 0 || env.st.unknownCalls {
+			t = smt.BVBin("bvadd", t, en.ctx.Fresh("unknownevents", bv64))
+		}
+		return scalar(tInt, t)
 	case "ret":
 		// ret(f, k) / ret(f, k, j): result (j-th result) of the k-th call to f on this path
 		ev := env.nthEvent(e.Args[0], e.Args[1])
